@@ -38,9 +38,10 @@ def run(ctx):
     compare(ctx, "numscript:spec-vs-vm", inputs, impl, model, proj_impl=lambda i, o: strip(o))
     seen, nontrivial = set(), 0
     rp = Replays(ctx, inputs)   # a replay is the case alone when that shows the violation, else (earlier case of the process, case)
+    flst = collections.Counter()
     for inp in inputs:
         out = impl.get(inp["id"], {})
-        for cls, what in floor_violations(inp, out):
+        for cls, what in floor_violations(inp, out, flst):
             rp.violation({"property": "C01", "class": cls, "construct": cause(inp)}, what, inp, out,
                          lambda o, inp=inp, cls=cls: any(c == cls for c, _ in floor_violations(inp, o)))
         g, _ = grants(inp)
@@ -49,6 +50,8 @@ def run(ctx):
             nontrivial += 1
         seen.add(h)
     ctx.cov["replay_isolation"] = dict(rp.stats)
+    ctx.cov["floor_oracle"] = dict(flst)
+    ctx.cov["focused_shapes"] = focus_stats(inputs, impl)
     ctx.cov["shapes"] = dict(collections.Counter(i.get("shape") or "general" for i in inputs))
     ctx.cov["evaluations"] = len(inputs)
     ctx.cov["distinct_nontrivial"] = nontrivial
